@@ -260,7 +260,8 @@ func solveOne(o *Obligation, file string, opts solveOpts) *SolveResult {
 	}
 	// quick mode: z3-new alone for a short while (most goals take milliseconds), then race
 	// z3-new and cvc5 with the full budget, then z3 4.8 as a last resort.
-	if !opts.thorough {
+	bvUnit := o.Unit != nil && o.Unit.bv
+	if !opts.thorough && !bvUnit {
 		status, out, ms := runSolver(solvers[0], file, 2, opts.seed)
 		res.Tried = append(res.Tried, fmt.Sprintf("%s:%s:%dms", solvers[0].name, status, ms))
 		if status == "unsat" || status == "sat" {
@@ -272,7 +273,7 @@ func solveOne(o *Obligation, file string, opts solveOpts) *SolveResult {
 		}
 	}
 	qfModel := ""
-	if !o.Cover {
+	if !o.Cover && !bvUnit { // bit-vector goals go straight to the race (cvc5 usually wins)
 		// Undecided with the quantified axioms: try the quantifier-free part alone. Unsat there is
 		// unsat of the full query (fewer assumptions); sat there is a counterexample candidate
 		// modulo the axioms (the obligation fails either way, the model feeds the replay).
